@@ -61,7 +61,17 @@ def update_model(m):
     }
 
 
+def bastion_model(m):
+    cls = "accepted"
+    for k, c in (("eNoSig", "nosig"), ("eOldSize", "oldsize"), ("eStale", "stale"), ("eRoot", "rootmismatch"), ("eProof", "badproof")):
+        if m.get(k):
+            cls = c
+    return {"Class": cls}
+
+
 CONCRETISERS = {
+    "bastion.addHandler).handleUpdate": ("internal/feeder/bastion", "zz_verif_replay_test.go", "replay/bastion_replay_test.go", "TestVerifReplayBastion", bastion_model),
+    "bastion.addHandler).ServeHTTP": ("internal/feeder/bastion", "zz_verif_replay_test.go", "replay/bastion_replay_test.go", "TestVerifReplayBastion", bastion_model),
     "witness.Witness).Update": ("internal/witness", "zz_verif_replay_test.go", "replay/update_replay_test.go", "TestVerifReplayUpdate", update_model),
 }
 
